@@ -38,6 +38,10 @@ CRED_CLASSES = [
     " ", ",", "=", '"', "\\", ":", "éüß€日本𝔘", "@.-_",
 ]
 CLASS_NAMES = ["plain", "space", "comma", "equals", "dquote", "backslash", "colon", "nonascii", "punct"]
+# values that look like pieces of the mechanisms' own wire formats
+CRED_WHOLE = ["Bearer token-0123", "bearer x", "BEARER", "n,a=admin,", "=2C=3D", "a=b,c", "auth=Bearer x", "rspauth=1", "PLAIN",
+              "{5}", "user@example.org", "Basic dXNlcg==", "dXNlcg==", "username=\"x\"", "realm", "e\u0301", "\u212bke", " lead", "trail ",
+              "x" * 300, "a:b:c", "00000001", "nonce"]
 
 
 def announced_lists():
@@ -79,9 +83,11 @@ def all_cells():
 def cred(f, label, allow_empty=False):
     if f.flag(label + ".ascii", 1, 2) is False and not allow_empty:
         pass
-    kind = f.weighted(label + ".kind", [3, 4])
+    kind = f.weighted(label + ".kind", [3, 4, 2])
     if kind == 0:
         return ["user", "secret", "admin"][f.int(label + ".plainval", 3)] if not allow_empty else ""
+    if kind == 2:
+        return CRED_WHOLE[f.int(label + ".whole", len(CRED_WHOLE))]
     return f.text(label + ".txt", CRED_CLASSES, 10, 0 if allow_empty else 1)
 
 
@@ -132,7 +138,18 @@ def run(ch, config, res):
         password = cred(wl, "password")
         authz = cred(wl, "authz", allow_empty=True) if wl.flag("has_authz", 1, 2) else ""
         rsz = [4096, 1, 7][wl.weighted("read_size", [6, 1, 1])]
-    cfg = ServerConfig(sasl_pre=announced, users={login: password})
+    # in some runs the handshake goes through STARTTLS and the list that counts is the one announced after it
+    with ch.scope("tls"):
+        use_tls = cell is None and wl.flag("starttls", 1, 4)
+        pre_idx = wl.int("pre", len(al)) if use_tls else 0
+    if use_tls:
+        cfg = ServerConfig(starttls=True, sasl_pre=al[pre_idx], sasl_post=announced if announced is not None else [], users={login: password})
+        if announced is None:
+            cfg.sasl_post = False        # SASL announced in clear text, no SASL line at all after the handshake
+            if cfg.sasl_pre is None:
+                cfg.sasl_pre = ["PLAIN"]
+    else:
+        cfg = ServerConfig(sasl_pre=announced, users={login: password})
     world = World(ch, cfg, client_impl=config.get("client", "real"), read_size=rsz, read_timeout=5)
     srv = world.server
     srv.data_variation = True      # challenges may be sent as literals
@@ -193,7 +210,7 @@ def run(ch, config, res):
         nviol = len(srv.violations)
         creds_problem[0] = None
         with ch.scope(scope):
-            o = world.call(client, "connect", login, password, authz_id=authz, authmech=authmech)
+            o = world.call(client, "connect", login, password, authz_id=authz, authmech=authmech, starttls=use_tls)
         seen = srv.sasl_seen[nseen:]
         exp = expected_mech(announced, authmech)
         sent_auth = [r for r in srv.log if r.verb == b"AUTHENTICATE" and r.call_id == o.call_id]
@@ -257,7 +274,10 @@ def run(ch, config, res):
                 again = wl.flag("again", 1, 2)
                 a2 = wl.int("announced2", len(al))
             if again:
-                cfg.sasl_pre = al[a2]
+                if use_tls:
+                    cfg.sasl_post = al[a2] if al[a2] is not None else False
+                else:
+                    cfg.sasl_pre = al[a2]
                 failure = attempt(client, "op#1", al[a2])
                 res.count("second_connects")
     res.digest = world.digest()
